@@ -426,3 +426,8 @@ PROP = with_src(C05(), share=10,
 # x7: `SpecifierSet.__repr__` (ASCII text; every iteration order) against SSet.SpecSet.repr
 PROP = with_src(PROP, share=10, functions=["SpecifierSet.__repr__"], module=["PkgProofs.Props.Src.X7Spec"],
                 theorems=["Src.SpecifierSet.__repr___translated", "Src.SpecifierSet.__repr___eq_model"])
+
+# history-insensitivity on shared objects (harness/histlaw.py): programs over Specifier / SpecifierSet / Requirement / Marker
+# objects; extra read-only calls and work on unrelated objects built from the same texts must not change any answer
+import histlaw  # noqa: E402
+PROP = histlaw.attach(PROP, every=25)
